@@ -1,6 +1,6 @@
 (* C02 - no lint fails internally on any input the parser accepts.  Statements only
    (proofs: Framework/FatalFacts.v, Kernels/Walkers.v, Kernels/BodiesFacts.v). *)
-From ZL Require Import Base.Bytes Framework.Core Framework.LifecycleFacts Framework.FatalFacts Kernels.Walkers Kernels.Bodies Kernels.BodiesFacts Kernels.Crl Kernels.QcStatem.
+From ZL Require Import Base.Bytes Framework.Core Framework.LifecycleFacts Framework.FatalFacts Kernels.Walkers Kernels.Bodies Kernels.BodiesFacts Kernels.Crl Kernels.QcStatem Kernels.Arpa.
 Open Scope Z_scope.
 
 (* a fatal status is an explicit decision of the body, a configuration error, or a recovered panic *)
@@ -98,6 +98,11 @@ Theorem c02_qc_guard_needed :
   let r := parse_qc (Some [IStmt KType false]) KType in r_present r = true /\ r_dyn r = None.
 Proof. exact guard_needed. Qed.
 
+(* reversedLabelsToIPv6 indexes labels[i], labels[i-1], labels[i-2], labels[i-3] for i = 31, 27, ..., 3: never outside the
+   label list, whatever the labels are (the length test comes first) - and 31 labels without the test would be *)
+Theorem c02_arpa_indexing_safe : forall labels, assemble_v6 labels <> OOR.
+Proof. exact assemble_v6_safe. Qed.
+
 Print Assumptions c02_fatal_origin.
 Print Assumptions c02_framework.
 Print Assumptions c02_plain.
@@ -119,3 +124,4 @@ Example c02_gentime_example :
 Proof. repeat split; try reflexivity. intros _. vm_compute. discriminate. Qed.
 Print Assumptions c02_qc_assert_safe.
 Print Assumptions c02_qc_guard_needed.
+Print Assumptions c02_arpa_indexing_safe.
